@@ -1,0 +1,42 @@
+//go:build verif
+
+// Verification-only exports for Roller (build tag `verif`). Add-only: nothing in this file is
+// compiled without the tag, and no existing line of the package is changed by it.
+
+package tls
+
+import (
+	"path/filepath"
+	"runtime"
+	"time"
+)
+
+// VerifNewRoller builds a Roller exactly as NewRoller does, except that its prng is seeded with
+// the given seed (so the shuffle of Dial can be predicted) and the id list and the two timeouts
+// are the given ones.
+func VerifNewRoller(seed PRNGSeed, ids []ClientHelloID, tcpDialTimeout, tlsHandshakeTimeout time.Duration) (*Roller, error) {
+	r, err := newPRNGWithSeed(&seed)
+	if err != nil {
+		return nil, err
+	}
+	return &Roller{
+		HelloIDs:            ids,
+		TcpDialTimeout:      tcpDialTimeout,
+		TlsHandshakeTimeout: tlsHandshakeTimeout,
+		r:                   r,
+	}, nil
+}
+
+// VerifWorkingHelloID returns the pointer stored in WorkingHelloID, read under HelloIDMu.
+func (c *Roller) VerifWorkingHelloID() *ClientHelloID {
+	c.HelloIDMu.Lock()
+	defer c.HelloIDMu.Unlock()
+	return c.WorkingHelloID
+}
+
+// VerifSourceDir returns the directory of the package source this binary was compiled from
+// (the shape extractor of the harness parses u_roller.go there).
+func VerifSourceDir() string {
+	_, f, _, _ := runtime.Caller(0)
+	return filepath.Dir(f)
+}
